@@ -182,8 +182,8 @@ func unconstrained(c Call, d Dump) bool {
 			if d.kind(b.comps) == kDir {
 				dst = join(b.comps, base(a))
 			}
-			if within(a.comps, dst) {
-				return false
+			if within(a.comps, dst) || within(dst, a.comps) {
+				return false // refused: into itself / over one of its own parents
 			}
 			if d.throughFile(dst) {
 				return true
@@ -378,6 +378,9 @@ func oracles(r *h.Run, p Program, ci int, s step, strict bool) (stop bool) {
 	sh := shape(c, s.before[0])
 	replay := Program{Init: p.Init, Calls: p.Calls[:ci+1], Loose: p.Loose}
 	for i, bn := range []string{"os", "mem"} {
+		if s.skip[i] {
+			continue
+		}
 		shp := shape(c, s.before[i])
 		if s.res[i].Hung {
 			r.Fail("hang:"+shp+":"+bn, fmt.Sprintf("%s did not return within %v on the %s back end", c, callTimeout, bn), replay)
